@@ -127,11 +127,23 @@ func edgeLabelSetsKind(fn *ssa.Function, kind string, label func(*ssa.If) (strin
 							continue
 						}
 						any = true
-						if len(val[p]) == 0 {
-							empty = true
+						// the false edge of a comparison with k rules k out
+						excl, hasExcl := "", false
+						if si == 1 && len(p.Succs) == 2 && p.Succs[0] != p.Succs[1] {
+							if ifi, isIf := p.Instrs[len(p.Instrs)-1].(*ssa.If); isIf {
+								excl, hasExcl = label(ifi)
+							}
 						}
+						n := 0
 						for k := range val[p] {
+							if hasExcl && k == excl {
+								continue
+							}
 							u[k] = true
+							n++
+						}
+						if n == 0 {
+							empty = true
 						}
 					}
 				}
@@ -307,46 +319,75 @@ func checkC16(w *World) {
 			}
 		}
 		found := false
+		// a returned error with the conditions under which it is that value: the return's own guards, or - when the
+		// error variable was reassigned on some paths before a shared return - the guards of each incoming path
+		type errCase struct {
+			val   ssa.Value
+			atoms []atom
+		}
 		allInstrs(pull, func(in ssa.Instruction) {
 			ret, ok := in.(*ssa.Return)
-			if !ok || len(ret.Results) != 3 || isNilConst(ret.Results[2]) || ret.Results[2] == errV {
+			if !ok || len(ret.Results) != 3 || isNilConst(ret.Results[2]) {
 				return
 			}
-			eof, open := false, false
-			for _, a := range guardAtoms(ret.Block()) {
-				switch x := a.V.(type) {
-				case *ssa.BinOp:
-					if x.X == errV && x.Op == token.EQL && a.Pol {
-						if ld, ok := x.Y.(*ssa.UnOp); ok {
-							if g, ok := ld.X.(*ssa.Global); ok && g.Name() == "EOF" {
-								eof = true
+			var cases []errCase
+			if phi, isPhi := ret.Results[2].(*ssa.Phi); isPhi {
+				for i, e := range phi.Edges {
+					pb := phi.Block().Preds[i]
+					at := guardAtoms(pb)
+					if len(pb.Instrs) > 0 {
+						if ifi, isIf := pb.Instrs[len(pb.Instrs)-1].(*ssa.If); isIf && len(pb.Succs) == 2 && pb.Succs[0] != pb.Succs[1] {
+							at = append(at, valueAtoms(ifi.Cond, pb.Succs[0] == phi.Block())...)
+						}
+					}
+					cases = append(cases, errCase{e, at})
+				}
+			} else {
+				cases = append(cases, errCase{ret.Results[2], guardAtoms(ret.Block())})
+			}
+			for _, ec := range cases {
+				if ec.val == errV {
+					continue
+				}
+				eof := false
+				for _, a := range ec.atoms {
+					switch x := a.V.(type) {
+					case *ssa.BinOp:
+						for _, pair := range [][2]ssa.Value{{x.X, x.Y}, {x.Y, x.X}} {
+							if pair[0] == errV && x.Op == token.EQL && a.Pol {
+								if ld, ok := pair[1].(*ssa.UnOp); ok {
+									if g, ok := ld.X.(*ssa.Global); ok && g.Name() == "EOF" {
+										eof = true
+									}
+								}
 							}
 						}
-					}
-					if isLenOf(x.X, nil) {
-						if k, ok := constInt(x.Y); ok && k == 0 && ((x.Op == token.GTR && a.Pol) || (x.Op == token.NEQ && a.Pol) || (x.Op == token.EQL && !a.Pol)) {
-							open = true
+					case *ssa.Call:
+						if staticCallee(x) != nil && funcFullName(staticCallee(x)) == "errors.Is" && a.Pol && x.Call.Args[0] == errV {
+							eof = true
 						}
 					}
-				case *ssa.Call:
-					if staticCallee(x) != nil && funcFullName(staticCallee(x)) == "errors.Is" && a.Pol && x.Call.Args[0] == errV {
-						eof = true
+				}
+				// the state stack is known to be non-empty (any spelling of the length test)
+				depth, feasible := minFeasible(ec.atoms, func(v ssa.Value) bool {
+					c, ok := stripConv(v).(*ssa.Call)
+					return ok && isLenOf(c, nil)
+				})
+				open := feasible && depth >= 1
+				// the returned error must not itself be io.EOF
+				notEOF := true
+				if ld, ok := ec.val.(*ssa.UnOp); ok {
+					if g, ok := ld.X.(*ssa.Global); ok && g.Name() == "EOF" {
+						notEOF = false
 					}
 				}
-			}
-			// the returned error must not itself be io.EOF
-			notEOF := true
-			if ld, ok := ret.Results[2].(*ssa.UnOp); ok {
-				if g, ok := ld.X.(*ssa.Global); ok && g.Name() == "EOF" {
+				// ... nor wrap it (errors.Is would still see io.EOF and the store would end the document normally)
+				if sliceContains(ec.val, func(v ssa.Value) bool { return v == errV }) {
 					notEOF = false
 				}
-			}
-			// ... nor wrap it (errors.Is would still see io.EOF and the store would end the document normally)
-			if sliceContains(ret.Results[2], func(v ssa.Value) bool { return v == errV }) {
-				notEOF = false
-			}
-			if eof && open && notEOF {
-				found = true
+				if eof && open && notEOF {
+					found = true
+				}
 			}
 		})
 		w.check(P, "R16.1", "EOF with open containers", tokenCall.Pos(), found, fmt.Sprintf("a non-EOF error is returned when the reader ends while the state stack is non-empty: %v (json.Decoder.Token reports plain io.EOF for truncated input such as `{\"a\": [1, 2`)", found))
